@@ -8,13 +8,40 @@ Steps (all in a scratch worktree of /repo HEAD, removed afterwards):
   4. the listed checks are run against the patched tree; exit codes and VIOLATION lines recorded
 """
 import json, os, shutil, subprocess, sys, tempfile, time
-src, sid = os.path.abspath(sys.argv[1]), sys.argv[2]
-checks = sys.argv[3:]
+checks_only = '--checks-only' in sys.argv
+argv = [a for a in sys.argv if a != '--checks-only']
+src, sid = os.path.abspath(argv[1]), argv[2]
+checks = argv[3:]
 V = os.path.dirname(os.path.dirname(os.path.abspath(__file__)))
 out = os.path.join(V, 'seeded', sid)
 tmp = tempfile.mkdtemp(prefix='pfv-seed-')
 wt = tmp + '/repo'
 rec = {'id': sid, 'confirmed_at': time.strftime('%Y-%m-%dT%H:%M:%SZ', time.gmtime())}
+if checks_only:
+    # re-run only the checks against the patched tree (patch, demo and suite were confirmed before): refresh the detection record
+    cf = os.path.join(V, 'seeded', sid + '.confirm.json')
+    rec = json.load(open(cf))
+    if not checks:
+        checks = sorted(rec.get('checks', {}))
+    try:
+        subprocess.run(['git', '-C', '/repo', 'worktree', 'add', '-q', '--detach', wt, 'HEAD'], check=True)
+        a = subprocess.run(['git', '-C', wt, 'apply', os.path.join(V, 'seeded', sid, 'patch.diff')], capture_output=True, text=True)
+        if a.returncode != 0:
+            print(sid, 'patch no longer applies'); sys.exit(4)
+        cenv = dict(os.environ, PFV_REPO=wt, PFV_OUT=tmp + '/out')
+        rec['checks'] = {}
+        for p in checks:
+            r = subprocess.run([os.path.join(V, 'check'), p, 'quick'], capture_output=True, text=True, env=cenv, timeout=3600)
+            rec['checks'][p] = {'exit': r.returncode, 'lines': [l[:300] for l in r.stdout.splitlines() if l.split(' ')[0] in ('VIOLATION', 'UNDECIDED', 'ENGINE-UNSOUND', 'ENGINE-ERROR')][:12]}
+        rec['checks_rerun_at'] = time.strftime('%Y-%m-%dT%H:%M:%SZ', time.gmtime())
+        json.dump(rec, open(cf, 'w'), indent=1)
+        mp = os.path.join(V, 'seeded', sid, 'meta.json')
+        meta = json.load(open(mp)); meta['detected_by'] = rec['checks']; json.dump(meta, open(mp, 'w'), indent=1)
+        print(sid, {p: v['exit'] for p, v in rec['checks'].items()})
+    finally:
+        subprocess.run(['git', '-C', '/repo', 'worktree', 'remove', '--force', wt], capture_output=True)
+        shutil.rmtree(tmp, ignore_errors=True)
+    sys.exit(0)
 try:
     subprocess.run(['git', '-C', '/repo', 'worktree', 'add', '-q', '--detach', wt, 'HEAD'], check=True)
     rec['repo_head'] = subprocess.run(['git', '-C', '/repo', 'rev-parse', '--short', 'HEAD'], capture_output=True, text=True).stdout.strip()
